@@ -2,7 +2,7 @@
    (DialogLayer::receive: CSeq ordering with backlog; DialogKey::from_incoming; usage guard).
    Definitions only; proofs are in Proofs/C10.v. *)
 From Coq Require Import List Arith NArith Bool.
-From EZK Require Import Lib.Bytes.
+From EZK Require Import Gen.Tables Lib.Bytes.
 Import ListNotations.
 Open Scope N_scope.
 
@@ -61,6 +61,16 @@ Definition step (st : dstate) (r : req) : dstate * list (N * N) :=
     let '(d, last, bl) := drain (S (length (backlog st))) c (backlog st) in
     (mkd (Some (sat_succ last)) bl, (c, r_id r) :: d)
   | Gt => (mkd (Some nx) (bl_insert c (r_id r) (backlog st)), [])
+  end.
+
+(* Ordering::Greater while the backlog already holds a request with this number: the layer returns without taking
+   the request (it is left to the following layers / the endpoint's default answer) instead of overwriting the parked
+   one.  [dlg_backlog_no_overwrite] (Gen.Tables) says whether the source has that guard. *)
+Definition refused (st : dstate) (r : req) : bool :=
+  dlg_backlog_no_overwrite &&
+  match next st with
+  | Some n => (n <? r_cseq r) && match bl_lookup (r_cseq r) (backlog st) with Some _ => true | None => false end
+  | None => false
   end.
 
 Definition run (st : dstate) (rs : list req) : dstate * list (N * N) :=
@@ -126,6 +136,7 @@ Definition layer_step (es : list entry) (ev : event) : list entry * outcome :=
       match entries_find k es with
       | None => (es, NotIntercepted)
       | Some e =>
+        if refused (e_st e) r then (es, NotIntercepted) else
         let '(st', d) := step (e_st e) r in
         (entries_update k (fun e => mke (e_key e) st' (e_usages e)) es,
          match d with [] => Held | _ => Delivered (e_key e) (e_usages e) d end)
